@@ -213,8 +213,9 @@ PreSane ==
 \* number the members; a filled value comes from the same group, from the right side
 RowKey(i) == KeyOf(case.rows[i], case.keys)
 InGroup(i) == ~(case.dropna /\ HasNAKey(case.rows[i], case.keys))
+XfRaisesIff == Judged("xf") => (exp.err <=> (case.op = "tsum" /\ case.rows # <<>> /\ \A i \in DOMAIN case.rows : ~InGroup(i)))
 XfSane ==
-  (Judged("xf")) =>
+  (Judged("xf") /\ ~exp.err) =>
      LET cols == IF case.op = "cumcount" THEN <<"">> ELSE case.cols IN
      \A i \in DOMAIN case.rows : \A j \in DOMAIN cols :
         LET x == exp.v[i][j]
